@@ -235,14 +235,24 @@ func (g *pgen) count(k string) {
 
 var litWords = []string{"lit", "abc", "Q", "hello world", "x1", "17", "true", "some-longer-literal-value-0123456789", "9",
 	// commas and keywords inside a literal are part of the literal (D27, D32)
-	"a,b", "wait for it", "only if needed", "x, for y"}
+	"a,b", "wait for it", "only if needed", "x, for y",
+	// the other quote character inside a literal is an ordinary character
+	"it's, fine", `say "a, b" twice`, "rock'n, roll"}
 
 func (g *pgen) strLit() string {
 	q := `"`
 	if g.r.chance(1, 4) {
 		q = `'`
 	}
-	return q + pick(g.r, litWords) + q
+	w := pick(g.r, litWords)
+	if strings.Contains(w, q) {
+		if q == `"` {
+			q = `'`
+		} else {
+			q = `"`
+		}
+	}
+	return q + w + q
 }
 
 func (g *pgen) intLit() string { return strconv.Itoa(g.r.intn(300)) }
